@@ -67,6 +67,13 @@ def enum_paths(fa, max_paths=20000, domain=None):
                 if g[4] == "assert":
                     continue
                 g2 = g
+                if g[0].op == "const":
+                    # branch on a literal (e.g. `if $round {` with round: true): only the matching edge is feasible
+                    cv = g[0].args[1]
+                    if (g[1] == "eq" and cv != g[2]) or (g[1] == "ne" and cv in g[2]):
+                        ok = False
+                        break
+                    continue
                 if domain is not None and g[1] == "ne":
                     dom = domain(g[0])
                     if dom is not None:
